@@ -6,6 +6,7 @@ Exit codes: 0 = held on everything explored (possibly with KNOWN-FINDING lines);
 from __future__ import annotations
 
 import asyncio
+import gc
 import importlib
 import json
 import multiprocessing
@@ -70,6 +71,24 @@ def _crash_kind(pid: str, exc: BaseException) -> str:
 
 def call_case(sub: SubCheck, case: Any, rec: Rec, pid: str) -> None:
     """Run the property function on one case; normalise outcomes to Violation / HarnessError."""
+    # The pinned cachebox (6.2.0) self-deadlocks when a cyclic garbage collection starts inside a
+    # cache-miss of a `cached` getter (its tp_traverse takes the mutex the thread already holds).
+    # Collections are therefore deferred to the gaps between cases; no semantic effect on the case.
+    global _CASES
+    gc.disable()
+    try:
+        _call_case(sub, case, rec, pid)
+    finally:
+        gc.enable()
+        _CASES += 1
+        if _CASES % 25 == 0:
+            gc.collect()
+
+
+_CASES = 0
+
+
+def _call_case(sub: SubCheck, case: Any, rec: Rec, pid: str) -> None:
     try:
         if sub.is_async:
             if sub.loop == "det":
@@ -232,11 +251,14 @@ def _run_given(sub: SubCheck, state: ShardState, seed: int, n: int, tier: str) -
         pass  # state.failure holds the (shrunk) last failing case
     except HarnessError:
         pass
-    except hypothesis.errors.HypothesisException as e:
-        if state.harness_error is None:
-            state.harness_error = f"hypothesis: {type(e).__name__}: {e}"
-    except BaseExceptionGroup as e:  # noqa: F821
-        if state.harness_error is None:
+    except (hypothesis.errors.HypothesisException, BaseExceptionGroup) as e:  # noqa: F821
+        flaky = "Flaky" in type(e).__name__ or "unreliable" in str(e) or "Inconsistent" in str(e)
+        if flaky and state.failure is not None and state.harness_error is None:
+            # a violation was observed but did not reproduce when Hypothesis re-executed the case: the
+            # outcome depends on non-determinism outside the case (e.g. set iteration order inside the
+            # code under test). The observed violation stands; the replay may need several attempts.
+            state.failure["message"] += "\n[not reproduced on immediate re-execution: outcome depends on non-determinism outside the case]"
+        elif state.harness_error is None:
             state.harness_error = f"hypothesis: {type(e).__name__}: {e}"
 
 
